@@ -83,6 +83,24 @@ def check_comparisons(failures):
     if okg and rowsg and len(rowsg[0] if isinstance(rowsg[0], list) else rowsg) != 1:
         failures.append({'kind': 'spec', 'what': 'i64::MIN - 1 (= the double -2^63) and i64::MIN compare equal but form %d groups' % len(rowsg[0] if isinstance(rowsg[0], list) else rowsg),
                          'payload': {'query': gq, 'input_lines': [crow, json.dumps({'m': -2**63, 'one': 0}) + '\n']}})
+    # integer LITERALS in the query text and integer TEXT in a field are the exact integers, beyond 2^53 too: equal to the
+    # stored integer, difference 0, smaller than their successor
+    for B in (2**53 + 1, 2**53 + 3, 2**60 + 1, 2**62 + 12345, 2**63 - 2, -(2**53 + 1), -(2**63) + 1, 123456789012345679):
+        brow = json.dumps({'x': B, 's': str(B)}) + '\n'
+        if B > 0:       # (the language has no negative literals)
+            q3 = ('* | json | x == %d as eq | %d == x as eq2 | %d - x as d | x < %d as lt | s + 0 == x as teq | s - %d as td | fields eq, eq2, d, lt, teq, td'
+                  % (B, B, B, B + 1, B))
+            exp3 = {'eq': True, 'eq2': True, 'd': 0, 'lt': True, 'teq': True, 'td': 0}
+        else:
+            q3 = '* | json | s + 0 == x as teq | s - x as td | x - s as td2 | s * 1 == x as teq2 | fields teq, td, td2, teq2'
+            exp3 = {'teq': True, 'td': 0, 'td2': 0, 'teq2': True}
+        ok3, rows3, o3 = run_raw(q3, [brow])
+        n += 1
+        if not ok3 or len(rows3) != 1:
+            failures.append({'kind': 'spec', 'what': 'integer literal %d: the query did not run cleanly' % B, 'payload': {'query': q3, 'input_lines': [brow], 'stderr': o3['err'].decode('utf8', 'replace')[-300:]}})
+        elif not aglib.same(rows3[0], exp3):
+            failures.append({'kind': 'spec', 'what': 'the integer literal / integer text %d is not that integer: %r, expected %r' % (B, rows3[0], exp3),
+                             'payload': {'query': q3, 'input_lines': [brow], 'row': rows3[0]}})
     # transitivity of < on all triples, from the pairwise table
     ltm = {(r['i'], r['j']): r['lt'] for r in rows}
     eqm = {(r['i'], r['j']): r['eq'] for r in rows}
